@@ -43,6 +43,11 @@ class MinExclusiveConstraintComponent(ConstraintComponent):
                 "MinExclusiveConstraintComponent must have at least one sh:minExclusive predicate.",
                 "https://www.w3.org/TR/shacl/#MinExclusiveConstraintComponent",
             )
+        if any(not isinstance(_v, rdflib.Literal) for _v in min_vals):
+            raise ConstraintLoadError(
+                "MinExclusiveConstraintComponent sh:minExclusive must be a RDF Literal node.",
+                "https://www.w3.org/TR/shacl/#MinExclusiveConstraintComponent",
+            )
         self.min_vals = min_vals
 
     @classmethod
@@ -131,6 +136,11 @@ class MinInclusiveConstraintComponent(ConstraintComponent):
         if len(min_vals) < 1:
             raise ConstraintLoadError(
                 "MinInclusiveConstraintComponent must have at least one sh:minInclusive predicate.",
+                "https://www.w3.org/TR/shacl/#MinInclusiveConstraintComponent",
+            )
+        if any(not isinstance(_v, rdflib.Literal) for _v in min_vals):
+            raise ConstraintLoadError(
+                "MinInclusiveConstraintComponent sh:minInclusive must be a RDF Literal node.",
                 "https://www.w3.org/TR/shacl/#MinInclusiveConstraintComponent",
             )
         self.min_vals = min_vals
@@ -223,6 +233,11 @@ class MaxExclusiveConstraintComponent(ConstraintComponent):
                 "MaxExclusiveConstraintComponent must have at least one sh:minExclusive predicate.",
                 "https://www.w3.org/TR/shacl/#MaxExclusiveConstraintComponent",
             )
+        if any(not isinstance(_v, rdflib.Literal) for _v in max_vals):
+            raise ConstraintLoadError(
+                "MaxExclusiveConstraintComponent sh:maxExclusive must be a RDF Literal node.",
+                "https://www.w3.org/TR/shacl/#MaxExclusiveConstraintComponent",
+            )
         self.max_vals = max_vals
 
     @classmethod
@@ -311,6 +326,11 @@ class MaxInclusiveConstraintComponent(ConstraintComponent):
         if len(max_vals) < 1:
             raise ConstraintLoadError(
                 "MaxInclusiveConstraintComponent must have at least one sh:minInclusive predicate.",
+                "https://www.w3.org/TR/shacl/#MaxInclusiveConstraintComponent",
+            )
+        if any(not isinstance(_v, rdflib.Literal) for _v in max_vals):
+            raise ConstraintLoadError(
+                "MaxInclusiveConstraintComponent sh:maxInclusive must be a RDF Literal node.",
                 "https://www.w3.org/TR/shacl/#MaxInclusiveConstraintComponent",
             )
         self.max_vals = max_vals
